@@ -1453,6 +1453,93 @@ package ring
 //@   loop 3 invariant len(moduli) == rg.level+1 && forall(k, 0, rg.level+1, moduli[k] == rg.SubRings[k].Modulus)
 //@   loop 3 invariant 0 <= j && j <= rg.level+1 && index <= 2
 
+// ---- math/big as ASSUMED contracts (documented behaviour): each *big.Int / *big.Float is an object
+// ---- with one ghost value bigval(x); `refset` is the effect on it, evaluated on the values before the call
+//@ func ext:math/big.Int.Mul
+//@   trusted math/big: z = x*y
+//@   assigns
+//@   refset z = bigval(x) * bigval(y)
+//@   ensures result == z
+//@ func ext:math/big.Int.Add
+//@   trusted math/big: z = x+y
+//@   assigns
+//@   refset z = bigval(x) + bigval(y)
+//@   ensures result == z
+//@ func ext:math/big.Int.Rsh
+//@   trusted math/big: z = x >> n (arithmetic shift: floor division by 2^n)
+//@   assigns
+//@   refset z = bigval(x) / pow2(n)
+//@   requires n <= 64
+//@   ensures result == z
+//@ func ext:math/big.Int.Mod
+//@   trusted math/big: z = x mod y, Euclidean (result in [0, |y|)); panics for y = 0
+//@   assigns
+//@   requires bigval(y) != 0
+//@   refset z = bigval(x) % bigval(y)
+//@   ensures result == z
+//@ func ext:math/big.Int.Rem
+//@   trusted math/big: z = x rem y, truncated (sign of x); panics for y = 0
+//@   assigns
+//@   requires bigval(y) != 0
+//@   refset z = ite(bigval(x) >= 0, bigval(x) % bigval(y), 0 - ((0 - bigval(x)) % bigval(y)))
+//@   ensures result == z
+//@ func ext:math/big.Int.Cmp
+//@   trusted math/big: -1, 0, +1 as x <, ==, > y
+//@   assigns
+//@   ensures result == ite(bigval(x) < bigval(y), 0 - 1, ite(bigval(x) == bigval(y), 0, 1))
+//@ func ext:math/big.Int.CmpAbs
+//@   trusted math/big: -1, 0, +1 as |x| <, ==, > |y|
+//@   assigns
+//@   let ax = ite(bigval(x) < 0, 0 - bigval(x), bigval(x))
+//@   let ay = ite(bigval(y) < 0, 0 - bigval(y), bigval(y))
+//@   ensures result == ite(ax < ay, 0 - 1, ite(ax == ay, 0, 1))
+//@ func ext:math/big.Int.Uint64
+//@   trusted math/big: the value, when it fits 64 bits (undefined otherwise)
+//@   assigns
+//@   ensures implies(0 <= bigval(x) && bigval(x) < W, result == bigval(x))
+//@ func ext:math/big.Float.SetFloat64
+//@   trusted math/big: floating point is not modelled: z receives some value
+//@   assigns
+//@   refset z = *
+//@   ensures result == z
+//@ func ext:math/big.Float.Int
+//@   trusted math/big: the integer part of a float that is not modelled: z receives some value
+//@   assigns
+//@   refset z = *
+//@   ensures result0 == z
+
+//@ func GaussianSampler.normFloat64
+//@   property C17
+//@   trusted ziggurat over float64 not modelled: assumed to return some magnitude and a sign bit, drawing from the generator into the sampler's own buffer
+//@   assigns g.randomBuffer.randomBufferN
+//@   gassigns draws
+//@   ensures result1 <= 1
+
+// Arbitrary-precision branch (sigma > 2^53 and bound > 2^64, the smudging distributions): the value v
+// handed to the store callback for coefficient i is ONE big integer reduced modulo every q_j
+// (Euclidean residue, so the same integer on every RNS row), and |v| <= bound (finding F22: the
+// truncation test used to be made on the signed value).  Float64 branch: data flow only.
+//@ spec qiok(Qi, moduli, n, lim) = forall(k, 0, n, bigval(Qi[k]) == moduli[k] && refid(Qi[k]) <= lim)
+//@ spec absv(x) = ite(x < 0, 0 - x, x)
+//@ spec modok(moduli, r, n) = len(moduli) == n && forall(k, 0, n, moduli[k] == r.SubRings[k].Modulus && 0 < moduli[k])
+//@ func GaussianSampler.read
+//@   property C17
+//@   let rg = g.baseRing
+//@   let n = rg.level + 1
+//@   requires 0 <= rg.level && rg.level < len(rg.SubRings) && rg.level < len(pol.Coeffs)
+//@   requires 0 < rg.SubRings[0].N && forall(j, 0, n, len(pol.Coeffs[j]) >= rg.SubRings[0].N && 0 < rg.SubRings[j].Modulus)
+//@   fnparam f#0 requires c == rg.SubRings[j].Modulus && b == bigval(normInt) % c
+//@   fnparam f#0 requires absv(bigval(normInt)) <= absv(bigval(boundInt))
+//@   fnparam f#1 requires c == rg.SubRings[j].Modulus
+//@   loop 0 invariant 0 <= i && i <= n && modok(moduli, rg, n) && qiok(Qi, moduli, i, reftop()) && len(Qi) == n
+//@   loop 1 invariant 0 <= i && modok(moduli, rg, n) && len(Qi) == n && qiok(Qi, moduli, n, refid(boundInt))
+//@   loop 2 invariant 0 <= i && i < N && modok(moduli, rg, n) && len(Qi) == n && qiok(Qi, moduli, n, refid(boundInt))
+//@   loop 3 invariant 0 <= j && j <= n && 0 <= i && i < N && modok(moduli, rg, n) && len(Qi) == n && qiok(Qi, moduli, n, refid(boundInt))
+//@   loop 3 invariant absv(bigval(normInt)) <= absv(bigval(boundInt))
+//@   loop 4 invariant 0 <= i && modok(moduli, rg, n)
+//@   loop 5 invariant 0 <= i && i < N && modok(moduli, rg, n)
+//@   loop 6 invariant 0 <= j && j <= n && 0 <= i && i < N && modok(moduli, rg, n)
+
 // ---- read / read-and-add share one body: every store into the polynomial goes through the callback (C17) ----
 //@ storesvia UniformSampler.read pol f
 //@   property C17
